@@ -34,6 +34,7 @@ fn main() {
         std::process::exit(2);
     }
     let (pos, m) = args_map(&argv[1..]);
+    a5sim::procs::enter_private_tmp();
     match argv[0].as_str() {
         "ref" => a5sim::procs::ref_main(),
         "zygote" => a5sim::procs::zygote_main(get(&m, "cap-secs", 10u32)),
